@@ -328,4 +328,90 @@ structure Variant where
   idPinned : Bool
 deriving Repr
 
+
+/-! ## 7. A concrete hint language in which `KeyCongruent` for the `==` discipline is PROVED
+
+  Enough of `typing` to contain the look-alikes the histories use: class objects (equal iff identical —
+  two classes of the same NAME are different keys), `Literal[...]` (equal iff the same SET of (value, type)
+  pairs: `Literal[1] != Literal[True]`, `Literal[1, 2] == Literal[2, 1]`), `Union[...]` (equal iff the same
+  set of members, whatever the order), `list[h]` and `typing.List[h]` (never equal to each other, same
+  meaning). `pyEq` mirrors `typing`'s `__eq__`; `sat` is the full-depth meaning. -/
+
+inductive LitV where
+  | int (n : Int)
+  | bool (b : Bool)
+  | str (s : String)
+deriving DecidableEq, Repr
+
+inductive PyObj where
+  | lit (v : LitV)
+  | inst (cls : Nat)                 -- an instance of the class object numbered `cls`
+  | list (xs : List PyObj)
+  | none
+deriving Repr
+
+/-- union members / leaves -/
+inductive Atom where
+  | cls (name : String) (uid : Nat)  -- a class object: `uid` is its identity, `name` what `repr` shows
+  | lit (vs : List LitV)
+  | noneType
+deriving Repr
+
+inductive Hint where
+  | atom (a : Atom)
+  | union (ms : List Atom)           -- Union[...] / X | Y over leaves
+  | list585 (h : Hint)               -- list[h]
+  | list484 (h : Hint)               -- typing.List[h]
+deriving Repr
+
+def litSubset (a b : List LitV) : Bool := a.all (fun v => b.contains v)
+
+def atomEq : Atom → Atom → Bool
+  | .cls _ u, .cls _ u' => u == u'
+  | .lit vs, .lit vs' => litSubset vs vs' && litSubset vs' vs
+  | .noneType, .noneType => true
+  | _, _ => false
+
+def hintEq : Hint → Hint → Bool
+  | .atom a, .atom b => atomEq a b
+  | .union ms, .union ms' => ms.all (fun a => ms'.any (atomEq a)) && ms'.all (fun b => ms.any (fun a => atomEq a b))
+  | .list585 h, .list585 h' => hintEq h h'
+  | .list484 h, .list484 h' => hintEq h h'
+  | _, _ => false
+
+def satAtom : Atom → PyObj → Bool
+  | .cls _ u, .inst c => c == u
+  | .lit vs, .lit v => vs.contains v
+  | .noneType, .none => true
+  | _, _ => false
+
+def sat : Hint → PyObj → Bool
+  | .atom a, x => satAtom a x
+  | .union ms, x => ms.any (fun a => satAtom a x)
+  | .list585 h, .list xs => xs.all (fun x => sat h x)
+  | .list484 h, .list xs => xs.all (fun x => sat h x)
+  | .list585 _, _ => false
+  | .list484 _, _ => false
+
+def atomRepr : Atom → String
+  | .cls n _ => n
+  | .lit vs => "Literal" ++ toString (vs.map (fun v => match v with | .int n => toString n | .bool b => toString b | .str s => s))
+  | .noneType => "None"
+
+def hintRepr : Hint → String
+  | .atom a => atomRepr a
+  | .union ms => "Union" ++ toString (ms.map atomRepr)
+  | .list585 h => "list[" ++ hintRepr h ++ "]"
+  | .list484 h => "typing.List[" ++ hintRepr h ++ "]"
+
+def hintWorthy : Hint → Bool
+  | .list585 _ => true
+  | _ => false
+
+def hintLang : Lang Hint where
+  pyEq := hintEq
+  repr := hintRepr
+  worthy := hintWorthy
+  hashable _ := true
+
 end BearVerif.Memo
